@@ -23,9 +23,16 @@ def main():
         "and is kept under `seeded/<id>/` (patch.diff, demo, notes, meta.json). Checks were run against a scratch worktree with the patch applied (`harness/seed_eval.sh`), quick tier. "
         "The last column records what had to be strengthened when a change was first missed.\n\n"
         "| id | property | change | needs in order to manifest | caught by (clause) | first missed? what was strengthened |\n|---|---|---|---|---|---|\n" + "\n".join(rows) + "\n\n"
-        "The nine `fix:` commits of section 10 double as regression seeds: `harness/revert_check.sh <commit> <check>` re-runs a check against a scratch worktree with one fix "
-        "reverted. Reverting the `_resize` fix is caught by C10/C01, the shutdown(wait=False) fix by C01, the eager feeder start by C05/C01, the submit wake-up order by C02 "
-        "(second-wave scenario), the SemLock registration order by C13 (KP-mode), the cancelled-future fix by C06, the callable class wrapper by C16, the pickler-at-submit fix by C15.\n"
+        "The `fix:` commits of section 10 double as regression seeds: `harness/revert_check.sh <commit> <check>` re-runs a check against a scratch worktree with one fix "
+        "reverted (quick tier, seed 0). Validated this way: the `_resize` livelock fix is caught by C10/C01, the shutdown(wait=False) fix by C01, the eager feeder start by C05/C01, "
+        "the submit wake-up order by C02 (second-wave scenario), the SemLock registration order by C13 (KP-mode), the cancelled-future fix by C06, the callable class wrapper by C16, "
+        "the pickler-at-submit fix by C15, the feeder-thread leak fix (de484b1) by C20 (9 violations), the falsy-exception fix (3379a02) by C04 (20), the resize wake-up (7c02613) by C10 "
+        "(stall), the `_feed` IndexError/EPIPE fix (d4feef7) by C04 (stall), the tracker sweep warning fix (1467094) by C13 (semaphore_outlives_tree), the initializer depth fix (c46ba04) "
+        "by C19 (47). The management-lock fix (749efe4) is reproduced by `python -m harness.findings_repro F7` on a reverted tree; 177a206 does not revert cleanly (a later commit touches "
+        "the same lines) and was validated only when it was made.\n\n"
+        "Two changes delivered by second-round agents were dropped because a repair made meanwhile turned them harmless (their demonstrations pass on the current tree with the patch applied): "
+        "a C04 change that made `Queue._feed` treat EBADF/ECONNRESET from `dumps()` as a closed pipe (the d4feef7 repair handles pickling errors before that test), and a C19 change that "
+        "captured the worker depth at construction time (it only mattered in the window before `_process_worker` recorded its depth, which c46ba04 closed).\n"
     )
     p = os.path.join(common.VERIF, "DESIGN.md")
     s = open(p).read()
